@@ -22,17 +22,30 @@ func checkCase(c Case, u *vf.Unit) *vf.Verdict {
 	u.Journal(c)
 	res := &result{}
 	var v *vf.Verdict
-	sim.Bubble(curT, 30*time.Second, func() {
-		runCase(c, res)
-		v = judge(res, u)
-		if v != nil && v.Trace == nil && res.w != nil {
-			v.Trace = res.w.Router.Trace(300)
-		}
-	}, func(rep sim.LeakReport) {
-		if v == nil {
-			v = vf.Bad("C17/resources/goroutines-left", "%d goroutines still alive 30 s (virtual) after listener, transports and network were closed:\n%s%s", rep.Count, rep.Dump, res.describe())
-		}
-	})
+	var leak *vf.Verdict
+	func() {
+		defer func() {
+			// a bubble with goroutines left cannot end: synctest panics in the caller once the root function returns
+			if p := recover(); p != nil {
+				if leak != nil && strings.Contains(fmt.Sprint(p), "blocked goroutines remain") {
+					return
+				}
+				panic(p)
+			}
+		}()
+		sim.Bubble(curT, 30*time.Second, func() {
+			runCase(c, res)
+			v = judge(res, u)
+			if v != nil && v.Trace == nil && res.w != nil {
+				v.Trace = res.w.Router.Trace(300)
+			}
+		}, func(rep sim.LeakReport) {
+			leak = vf.Bad("C17/resources/goroutines-left", "%d goroutines still alive 30 s (virtual) after listener, transports and network were closed:\n%s%s", rep.Count, rep.Dump, res.describe())
+		})
+	}()
+	if v == nil {
+		v = leak
+	}
 	if v != nil {
 		return v
 	}
